@@ -209,7 +209,14 @@ func runFanout(rc *RunCtx, o fanOpts) {
 	}
 	all := append(append(append([]*poolNode{}, filters...), formatters...), sinks...)
 	for _, p := range all {
-		err := broker.RegisterNode(el.NodeID(p.id), p.obj)
+		var reg el.Node = p.obj
+		if rc.Prop == "C01" && tp.Choose(5, "decorated") == 0 {
+			// registered behind a decorator (NodeUnwrapper) with no Closer anywhere in its chain
+			p.obj.behindToll = true
+			reg = &tollWrap{inner: bareNode{p.obj}, obj: p.obj}
+			desc.History = append(desc.History, fmt.Sprintf("node %s is registered behind a decorator (a NodeUnwrapper; neither it nor what it wraps is a Closer)", p.id))
+		}
+		err := broker.RegisterNode(el.NodeID(p.id), reg)
 		ok := model.RegisterNode(p.id, p.obj, "", false)
 		if (err == nil) != ok {
 			rc.Failf(rc.Prop+".setup", "register-node", "RegisterNode(%s): real err=%v model ok=%v", p.id, err, ok)
@@ -623,6 +630,28 @@ func runFanout(rc *RunCtx, o fanOpts) {
 			simrt.Yield("fresh:b")
 			if err := broker.SetSuccessThresholdSinks("tfresh", b); err != nil {
 				rc.Failf("C02.threshold-api", "fresh-set", "SetSuccessThresholdSinks(tfresh) failed: %v", err)
+			}
+		})
+		// ... and a third task reads meanwhile: an event type becomes known together with the first value set
+		// for it, so "known, this threshold still 0" means the OTHER setter was first and its value is in force
+		sim.Spawn("fresh-reader", func() {
+			for i := 0; i < 4; i++ {
+				simrt.Yield("fresh:read")
+				if i%2 == 0 {
+					if v, ok := broker.SuccessThreshold("tfresh"); ok && v == 0 {
+						if w, _ := broker.SuccessThresholdSinks("tfresh"); w != b {
+							rc.Failf("C02.threshold-api", "known-before-set", "the new event type tfresh read back as known with a success threshold of 0, and right after that its sink threshold read %d: neither of the two values being set (%d, sinks %d) was in force although the type had become known", w, a, b)
+						}
+						simrt.Probe("fresh-type-read-between-setters")
+					}
+				} else {
+					if w, ok := broker.SuccessThresholdSinks("tfresh"); ok && w == 0 {
+						if v, _ := broker.SuccessThreshold("tfresh"); v != a {
+							rc.Failf("C02.threshold-api", "known-before-set", "the new event type tfresh read back as known with a sink threshold of 0, and right after that its success threshold read %d: neither of the two values being set (%d, sinks %d) was in force although the type had become known", v, a, b)
+						}
+						simrt.Probe("fresh-type-read-between-setters")
+					}
+				}
 			}
 		})
 		simrt.Probe("fresh-type-concurrent-setters")
@@ -1208,6 +1237,17 @@ func (c *foreignCtx) Err() error {
 	}
 }
 
+// detachedCtx is the hand-rolled "detached" wrapper applications use to let work outlive a request:
+// it still forwards the parent's Deadline and values but is never done.
+type detachedCtx struct {
+	context.Context
+	deadline time.Time
+}
+
+func (c *detachedCtx) Deadline() (time.Time, bool) { return c.deadline, true }
+func (c *detachedCtx) Done() <-chan struct{}       { return nil }
+func (c *detachedCtx) Err() error                  { return nil }
+
 type discardWriter struct{}
 
 func (discardWriter) Write(p []byte) (int, error) { return len(p), nil }
@@ -1277,7 +1317,7 @@ func runStockSinksTerminate(rc *RunCtx) {
 	var kinds []string
 	for s := 0; s < nSenders; s++ {
 		n := 1 + tp.Choose(3, "nsends")
-		kind := []string{"background", "cancelable", "foreign", "foreign", "deadline"}[tp.Choose(5, "ctxkind")]
+		kind := []string{"background", "cancelable", "foreign", "foreign", "deadline", "detached"}[tp.Choose(6, "ctxkind")]
 		kinds = append(kinds, fmt.Sprintf("%s x%d", kind, n))
 		total += n
 		sim.Spawn(fmt.Sprintf("sender%d", s), func() {
@@ -1293,6 +1333,10 @@ func runStockSinksTerminate(rc *RunCtx) {
 				case "foreign":
 					ctx = &foreignCtx{Context: context.Background(), done: make(chan struct{})}
 					simrt.Probe("send.foreign-context-type")
+				case "detached":
+					// reports a deadline that is nearer than any sink timeout, and is never done
+					ctx = &detachedCtx{Context: context.Background(), deadline: time.Now().Add(time.Millisecond)}
+					simrt.Probe("send.never-done-context-with-deadline")
 				}
 				b.Send(ctx, "t", &plainPayload{N: i})
 				returned++
